@@ -28,4 +28,18 @@ PROPS = {
                      "Go's regexp engine is modelled by two hand-written leftmost matchers; the regex literals are pinned from source"],
         "assumptions": ["time.Date normalises overflowing hour/minute linearly", "AddDate(0,0,±1) is ±24 h in UTC"],
     },
+    "C16": {
+        "required_theorems": ["c16_codec_roundtrip", "c16_any_chunking", "c16_resync", "c16_reader_char",
+                              "gen_cobsEncode_pinned", "gen_cobsDecode_pinned"],
+        "n": {"quick": 20000, "thorough": 200000},
+        "thorough_seeds": 3,
+        "rule": "rd: 1-5 frames (lengths 0,1,2,253-256,507-509, random; zero-free/zero-rich; zero right after a 254-run) written through the real "
+                "CobsWrapper.Write, idle delimiters, cut into device reads (byte-wise, all at once, near frame boundaries, random density, empty reads), "
+                "~25% with one damage event (flip/drop/insert/long burst); enc: Write output; dec: decoder on valid/truncated/corrupted/random bytes. "
+                "distinct = distinct case line; all cases non-trivial (each runs the reader or codec)",
+        "trusted": ["bytes.Buffer / bytes.IndexByte / copy semantics (parameters, exercised by the run)"],
+        "modelled": ["client/cobs-wrapper.go: cobsEncode, cobsDecodeInplace (in-place aliasing abstracted to a pure function), CobsWrapper.Read/Write modelled by hand in Siot/Model/Cobs.lean",
+                     "device reads are whole chunks of at most len(b) bytes; blocking/timing of the serial port is not modelled"],
+        "assumptions": ["the caller's buffer has len(b) >= encoded frame + 1 and maxMessageLength >= encoded frame - 1 (Fits)"],
+    },
 }
